@@ -464,6 +464,24 @@ def run_locked(ck):
     control("password set, login EMPTY: the same",
             pick("open/password-without-login", "route", "absent", path="/ready"), lambda c: c["obs"]["ran"] == 1 and c["obs"]["status"] not in (400, 401),
             "login_without_password_is_open")
+    def pick_auth(login, pw, cls):
+        for l in lines:
+            if l["kind"] == "auth" and l["login"] == login and l["pass"] == pw and l["class"] == cls:
+                return l
+        return None
+
+    def control_auth(name, a, ok, theorem):
+        controls[name] = {"theorem": theorem, "ok": bool(a) and bool(ok(a)),
+                          "request": a and ("BasicAuthMiddleware(%r, %r) <- Authorization: %s" % (a["login"], a["pass"], unhex(a["auth"]).decode("latin1") if a["has_auth"] else "<absent>")),
+                          "observed": a and {"status": a["status"], "next_called": a["next"]}}
+    control_auth("BasicAuthMiddleware with an EMPTY password accepts 'login:' (Basic dXNlcjo=)", pick_auth("user", "", "right"), lambda a: a["next"],
+                 "empty_password_accepts_exactly")
+    control_auth("BasicAuthMiddleware with an EMPTY password refuses the login alone (no colon in the payload)", pick_auth("user", "", "user-only"),
+                 lambda a: not a["next"] and a["status"] == 401, "empty_password_accepts_exactly")
+    control_auth("BasicAuthMiddleware with an EMPTY password challenges a request without header", pick_auth("user", "", "absent"),
+                 lambda a: not a["next"] and a["status"] == 401 and a["www"], "empty_password_accepts_exactly")
+    control_auth("BasicAuthMiddleware with a login containing ':' refuses the header built from the credentials", pick_auth("us:er", "pass", "right"),
+                 lambda a: not a["next"] and a["status"] == 401, "colon_login_locks_out")
     badc = [k for k, v in controls.items() if not v["ok"]]
     ck.obligation("named controls on the real router (%d): pre-flight, websocket handshake, ':' in login / password, empty password" % len(controls),
                   not badc, "; ".join("%s -> %s" % (k, controls[k]["observed"]) for k in badc[:3]))
